@@ -18,7 +18,7 @@ var checks = map[string]checkDef{
 	"C11": {Harness: "c11"},
 	"C12": {Harness: "c12"},
 	"C13": {Harness: "c13", Stages: []stageDef{{Harness: "c13s", Instrument: true, Key: "concurrent_writers"}}},
-	"C14": {Harness: "c14"},
+	"C14": {Harness: "c14", Stages: []stageDef{{Harness: "c14s", Instrument: true, Key: "expiry_sweep"}}},
 	"C17": {Harness: "c17"},
 	"C18": {Harness: "c18", Instrument: true},
 	"C19": {Harness: "c19", Instrument: true},
